@@ -4,7 +4,12 @@
 set -euo pipefail
 HERE="$(cd "$(dirname "$0")" && pwd)"
 V="$HERE/.venv"
+lean_warm() {
+  # compile the Lean lemma library once (about 3 minutes cold, seconds warm); the checks use the cached verdict
+  PYTHONPATH="$HERE" "$V/bin/python" -c "from vf import lemmas; ok, dt, msg = lemmas.compile_lemmas(); print('lean lemmas:', ok, round(dt, 1), 's', msg[:120])" || true
+}
 if [ -x "$V/bin/python" ] && "$V/bin/python" -c "import z3, icontract, jsonschema, jax" >/dev/null 2>&1; then
+  lean_warm
   exit 0
 fi
 rm -rf "$V"
@@ -14,3 +19,4 @@ PIP_NO_INDEX=1 "$V/bin/pip" install -q --no-index --find-links /opt/veriftools/w
 SP="$("$V/bin/python" -c 'import site; print(site.getsitepackages()[0])')"
 echo "import site; site.addsitedir('/venv/lib/python3.12/site-packages')" > "$SP/zz_repo.pth"
 "$V/bin/python" -c "import z3, icontract, jsonschema, jax, numpy; print('verif venv ok', z3.get_version_string())"
+lean_warm
